@@ -24,8 +24,9 @@ open IntTy
 /-- `implicit_rep_permitted_from_source_to_target<Rep>(unit, target)` for an integral `Rep` and an
 integer unit ratio `k` (conversion_policy.hh): the identity scaling is always permitted
 (`CoreImplicitConversionPolicyImplAssumingReal<Rep, Magnitude<>, Rep>`); otherwise
-`in_range<Rep>(2147)` and `max(Rep) / get_value<Rep>(k) >= 2147`.  When `k` does not fit `Rep` the
-evaluation of `get_value<Rep>(k)` is a hard error (finding F2) — also "does not compile". -/
+`in_range<Rep>(2147)` and `max(Rep) / get_value<Rep>(k) >= 2147`; when `k` does not fit `Rep`,
+`can_scale_without_overflow` answers `false` (after the fix of finding F2; a hard error before it —
+"does not compile" either way). -/
 def implicitOk (t : IntTy) (k : Nat) : Bool :=
   if k = 1 then true
   else
@@ -117,13 +118,16 @@ def usingCommon {α : Type} (r1 r2 : IntTy) (k1 k2 : Nat) (v1 v2 : Int)
   | .ub w, _ => ⟨.ub w, a.wrapped, a.narrowed⟩
   | _, .ub w => ⟨.ub w, a.wrapped || b.wrapped, a.narrowed || b.narrowed⟩
 
-/-- Overload resolution for any binary operator on `Quantity<U1,R1>`, `Quantity<U2,R2>` also considers
-the hidden friends of both classes, hence evaluates `ConstructionPolicy<U_j,R_j>::PermitImplicitFrom<U_i,R_i>`.
-Its conjunction stops at `IsInteger<U_i/U_j>` unless that ratio is an integer (`k_j = 1`); if it is an
-integer other than 1 that does not fit `R_j`, `get_value<R_j>` is a hard error inside the trait
-(finding F2) and the whole expression is ill-formed, whatever the common rep would admit. -/
-def lookupOk (r1 r2 : IntTy) (k1 k2 : Nat) : Bool :=
+/-- Overload resolution for a binary operator on `Quantity<U1,R1>`, `Quantity<U2,R2>` also considers the
+hidden friends of both classes, hence evaluates `ConstructionPolicy<U_j,R_j>::PermitImplicitFrom<U_i,R_i>`.
+Before the `fix:` commit for finding F2 that trait was a hard error when `U_i/U_j` is an integer that does
+not fit `R_j` (`lookupOkBeforeF2Fix`); `can_scale_without_overflow` now answers `false` instead, so the
+lookup itself never fails and the gate below is the constant `true`.  The old predicate is kept for the
+record (and for the theorem that the fix only enlarged the set of well-formed expressions). -/
+def lookupOkBeforeF2Fix (r1 r2 : IntTy) (k1 k2 : Nat) : Bool :=
   !(k2 == 1 && k1 != 1 && (gvInt r2 k1).isNone) && !(k1 == 1 && k2 != 1 && (gvInt r1 k2).isNone)
+
+def lookupOk (_r1 _r2 : IntTy) (_k1 _k2 : Nat) : Bool := true
 
 /-- Whether `q1 op q2` (comparison, `+`, `-`) compiles: the policy `static_assert` in `as(unit)`
 for the *common* rep, for both operands. -/
